@@ -50,7 +50,7 @@ def run(ctx):
         slow.append([res.get("wall_s", 0), d["learner"], c["name"]])
         slow.sort(reverse=True)
         del slow[5:]
-        if got != c["expect"]:
+        if c["expect"] != "any" and got != c["expect"]:
             if c["expect"] == "raise":
                 what = "a faulty run RETURNED %s instead of raising (%s, %s)" % (res.get("value"), d["learner"], c["name"])
             else:
